@@ -192,7 +192,8 @@ def _check_history(case):
         if not valid():
             return False, f"{kind}: after the accepted assignment w[{idx}] = {val} (history {steps}) the object's own amplitudes are rejected by the constructor"
         after = snapshot()
-        if any(x != y for j, (x, y) in enumerate(zip(before, after)) if j != idx):
+        touched = set(range(len(before))[idx]) if isinstance(idx, slice) else {idx % len(before)}
+        if any(x != y for j, (x, y) in enumerate(zip(before, after)) if j not in touched):
             return False, f"{kind}: assignment to index {idx} changed another entry"
     if w.free_symbols:
         for m in ({a: 0.1}, {a: 5.0}, {a: 0.8, b: 0.0}, {b: 0.7j}, {sympy.Symbol("zz"): 1.0}):
@@ -218,7 +219,12 @@ def _histories(tier):
              ("numeric", [(k % 4, 0.5 * (1 + (k + 1) * 0.4e-5)) for k in range(40)]),
              ("symbolic", [(1, 0.9), (3, 0.9), (1, 0.5), (0, 0.9j), (0, 0.1), (2, 0.7), (2, 0.9)]),
              ("symbolic", [(0, 0.9j), (2, 0.1j), (1, 0.9), (3, -0.9)]),
-             ("mixed", [(1, 0.9j), (2, 0.9), (2, 0.5j), (3, 0.9), (0, 0.1), (1, 0.99)])]
+             ("mixed", [(1, 0.9j), (2, 0.9), (2, 0.5j), (3, 0.9), (0, 0.1), (1, 0.99)]),
+             # slices and negative indices: a rejected slice assignment must be rolled back too (the saved old value must not be a view)
+             ("numeric", [(slice(0, 2), [0.9, 0.9]), (slice(0, 2), [0.5j, -0.5]), (slice(1, 3), [0.1, 0.1]), (-1, 0.9), (-1, -0.5), (slice(0, 4, 2), [0.5, 0.5j]),
+                          (slice(0, 4, 2), [0.7, 0.7]), (slice(None), [0.5, 0.5, 0.5, 0.6]), (slice(None), [0.5j, 0.5, -0.5, 0.5])]),
+             ("symbolic", [(slice(1, 3), [0.9, 0.9]), (slice(1, 4, 2), [0.3, 0.4]), (-1, 0.99), (slice(0, 1), [2.0])]),
+             ("mixed", [(slice(1, 3), [0.9, 0.9]), (slice(2, 4), [0.5, 0.5]), (-2, 1.5)])]
     return lambda: cases
 
 
